@@ -143,6 +143,7 @@ theorem NCa_parseDim (attrs : List (Str × AVal)) : NCa (parseDim attrs) := by
         split
         · simp
         · simp
+        · simp
         · rename_i e h; exact absurd h (by have := hp.1; unfold NC at this; exact this e)
         · rename_i h; exact absurd h (hp.2.2.1 (by omega))
         · rename_i w h; exact absurd h (by have := hp.2.1; unfold NU at this; exact this w)
@@ -180,6 +181,7 @@ theorem NCa_checkImpliedOne (names : List (Option Str)) (attrs : List (Str × AV
       have h3 := expression_not_fuel 0 toks (4 * toks.length + 8) (by omega)
       split
       · exact NCa_checkImpliedExpr _ _
+      · simp
       · simp
       · rename_i e h; exact absurd h (by unfold NC at h1; exact h1 e)
       · rename_i h; exact absurd h h3
